@@ -86,3 +86,44 @@ def lastStore (opts : List Opt) : Option Nat :=
   opts.foldl (fun acc o => match o with | .store sid => some sid | _ => acc) none
 
 end Ebu.Bus
+
+namespace Ebu.Bus
+
+/-- ids of the spans completed in a trace, in order -/
+def obsCompletes (l : List Ev) : List Nat :=
+  l.filterMap fun e => match e with
+    | .obs _ .pc id .. => some id
+    | .obs _ .hc id .. => some id
+    | .obs _ .rc id .. => some id
+    | _ => none
+
+/-- M9: what an OpenTelemetry-style implementation of the callbacks accumulates from a trace:
+spans started / ended, and the five counters -/
+structure OtelSummary where
+  started : Nat
+  ended : Nat
+  publishes : Nat
+  handlerRuns : Nat
+  handlerErrors : Nat
+  persistAttempts : Nat
+  persistErrors : Nat
+deriving DecidableEq, Repr
+
+def otelSummary (l : List Ev) : OtelSummary :=
+  let cnt (p : Ev → Bool) := l.countP p
+  { started := (obsStarts l).length,
+    ended := (obsCompletes l).length,
+    publishes := cnt (fun e => match e with | .obs _ .ps .. => true | _ => false),
+    handlerRuns := cnt (fun e => match e with | .obs _ .hs .. => true | _ => false),
+    handlerErrors := cnt (fun e => match e with | .obs _ .hc _ _ _ true => true | _ => false),
+    persistAttempts := cnt (fun e => match e with | .obs _ .rs .. => true | _ => false),
+    persistErrors := cnt (fun e => match e with | .obs _ .rc _ _ _ true => true | _ => false) }
+
+/-- the truth the counters must equal: handler invocations, panics, append attempts, failed appends -/
+def trueCounts (l : List Ev) : Nat × Nat × Nat × Nat :=
+  (l.countP (fun e => match e with | .enter .. => true | _ => false),
+   l.countP (fun e => match e with | .panich .. => true | _ => false),
+   l.countP isAppend,
+   l.countP (fun e => match e with | .append _ _ _ _ false _ => true | _ => false))
+
+end Ebu.Bus
